@@ -80,7 +80,8 @@ class Check(DiffCheck):
     id = 'C16'
     coq_dirs = ['Base', 'C15', 'C16']
     coq_targets = ['C16/C16_Lists.vo', 'C16/C16_AlignedProofs.vo', 'C16/C16_AlignedProofs2.vo', 'C16/C16_Proofs.vo',
-                   'C16/C16_XGeneric.vo', 'C16/C16_XProofs.vo', 'C16/C16_XInst.vo', 'C16/C16_XOps.vo']
+                   'C16/C16_XGeneric.vo', 'C16/C16_XProofs.vo', 'C16/C16_XInst.vo', 'C16/C16_XOps.vo',
+                   'C16/C16_XPow2.vo', 'C16/C16_XZero.vo', 'C16/C16_XZeroInst.vo', 'C16/C16_XVar.vo', 'C16/C16_XFinal.vo', 'C16/C16_XTrace.vo']
     properties_v = 'C16/C16_Properties.v'
     extract_v = 'C16/C16_Extract.v'
     runner_ml = 'ocaml/C16_run.ml'
@@ -95,9 +96,11 @@ class Check(DiffCheck):
                    'requests starting at/after EOF are outside the property (modelled and compared, not judged by the oracle)',
                    'offsets/lengths in the correspondence run are < 4096 (the model uses unary nat for list positions)']
     partial_note = ('proved: aligned adaptor (all four operations, every alignment 2^k, requests aligned, sequences); '
-                    'FixedSizeLinearFile (both splitters) and StripeFile incl. VirtualFile::piov_copy and sequences, for non-empty '
-                    'requests starting inside the composite. NOT proved: VariableSizeLinearFile (range_split_vi instance) and '
-                    'zero-length requests on the composites — covered by the correspondence run and the oracle only')
+                    'FixedSizeLinearFile (both splitters), VariableSizeLinearFile and StripeFile incl. VirtualFile::piov_copy and '
+                    'sequences, for requests of every length (zero included) starting inside the composite, logical content of the '
+                    'linear files = concat files, factories\' own is_power_of_2 test as hypothesis; the sub-file requests of a composite tile '
+                    'the clipped range (linear_trace, linear_vi_trace, stripe_trace). Outside the property (proved as such: '
+                    'composite_out_of_range): requests starting at/after the end of a composite are refused with EIO')
     trusted_base = ['recording in-memory IFile of harness/C16/harness.cpp is the well-behaved plain file',
                     'ASan malloc_fill_byte=0xbe stands for uninitialised bounce-buffer content']
 
